@@ -307,6 +307,23 @@ def run(p, report, tier):
             report.add(RULE, ent, construct, w.ev.loc, tag is not None,
                        detail=tag or (why + (f" [{mode} start]" if mode else "")), nontrivial=True,
                        path=w.ev.path())
+        # the model the caller passes in is part of "all future behaviour": a query that fits / alters it
+        # changes what every later query with the same model object returns
+        from .c05 import ESTIMATOR_HOWS
+        it = Interp(p)
+        it.run_entity(ci, f)
+        seen_p = set()
+        for w in writes(it.events, roots=("self",), include_params=True):
+            root, path = w.loc
+            if not root.startswith("p:") or w.how not in ESTIMATOR_HOWS:
+                continue
+            construct = f"{w.locname()} {w.kind} ({w.how}) in {w.ev.fi.qual}: {norm_stmt(w.ev.node)}"
+            if construct in seen_p:
+                continue
+            seen_p.add(construct)
+            report.add(RULE, ent, construct, w.ev.loc, False,
+                       detail="the estimator passed by the caller is fitted / altered by a query (no private clone): later "
+                              "queries with the same object see another model", path=w.ev.path())
     if tier == "thorough":
         # every stream strategy combined with every project budget manager a
         # user may pass (the quick tier resolves only the default manager)
